@@ -1,7 +1,7 @@
 From Coq Require Import ExtrOcamlBasic.
-From ChibiV Require Import Common.ExtractBase C08.Datum Gen.C08_Leaf C08.Write C08.Read C08.Labels C08.Model3 C08.FloSpec C08.Numbers.
+From ChibiV Require Import Common.ExtractBase C08.Datum Gen.C08_Leaf C08.Write C08.Read C08.Labels C08.Model3 C08.Model4 C08.SRead C08.SReadChar C08.FloSpec C08.Numbers.
 Extraction "model.ml" ext_base write write_nat write_symbol write_string write_char sym_needs_bars
   read_top read_raw sexp_decode_utf8_char utf8_encode
   read_labels wr g2l fill
   swrite_char height dec2flo_strtod utext stext dval patched flo_canon flip_sign
-  write_xnum read_num_token.
+  write_xnum read_num_token swrite same_char_text sread_quoted sread_atom.
